@@ -352,17 +352,22 @@ def box_members(ctx, n):
                                       f'hash differently', 'box_case', payload)
                 except TypeError:
                     pass
-            if which == 'observation' and a == b:
+            if which == 'observation':
+                try:
+                    equal = bool(a == b)
+                except Exception:  # noqa
+                    continue
                 for name in repgen.NAMES:
                     ok, rep = call_real(make_observation_representation, name, os_)
                     if not ok:
                         continue
                     ok1, d1 = call_real(rep.convert, a)
                     ok2, d2 = call_real(rep.convert, b)
-                    if ok1 and ok2 and flat(d1) != flat(d2):
-                        ctx.violation('faithful', 'equal_members.representations_differ',
-                                      f'{name}: observations that are == (they differ only in the content of a box) have different '
-                                      f'representations', 'box_case', payload)
+                    if ok1 and ok2 and equal != (flat(d1) == flat(d2)):
+                        ctx.violation('faithful', 'equal_members.representations_differ' if equal else 'unequal_members.representations_equal',
+                                      f'{name}: observations differing only in the content of a box ({enc.eo(ca)} / {enc.eo(cb)}) are '
+                                      f'{"==" if equal else "not =="} but their representations are {"different" if equal else "equal"} '
+                                      f'(equal representations if and only if equal)', 'box_case', payload)
             ctx.nontrivial(('box', which, enc.es(a), enc.es(b)))
 
 
